@@ -73,6 +73,7 @@ type Model struct {
 	TypedVsRef        int
 	MaxDepth          int
 	depth             int
+	ParseableNodes    int // user-implemented productions matched
 	ConvFails         int // productions failed by a numeric conversion
 	NumCaptures       int // accepted numeric captures
 	ElidedMatched     int // elided tokens matched explicitly
@@ -228,6 +229,18 @@ func (m *Model) eval(e *Expr, pos int) Res {
 		}
 		return r
 	case KRef:
+		if e.T == "EOF" {
+			// the EOF token matches a reference to EOF; nothing is consumed beyond the elided tokens in front of it
+			i := m.nextNE(pos)
+			if !m.Raw[i].EOF {
+				return Res{K: NoMatch, Pos: pos}
+			}
+			r := Res{K: Match, Pos: i, NVals: 1, First: -1, Last: -1}
+			if m.capDepth > 0 {
+				r.Texts = []string{""}
+			}
+			return r
+		}
 		return m.terminal(pos, func(t Tok) bool { return t.Type == e.T })
 	case KSeq:
 		acc := Res{K: Match, Pos: pos, First: -1, Last: -1}
@@ -344,6 +357,16 @@ func (m *Model) eval(e *Expr, pos int) Res {
 		m.capsSeen++
 		return Res{K: Match, Pos: r.Pos, NVals: 1, First: r.First, Last: r.Last,
 			Ev: []Event{{Field: e.Field, Sub: n, IsSub: true, Start: pos, End: r.Pos, First: r.First, Last: r.Last}}}
+	case KPars:
+		// user-implemented production: takes the next non-elided token, whatever it is
+		ne := m.nextNE(pos)
+		if m.Raw[ne].EOF {
+			return Res{K: NoMatch, Pos: pos}
+		}
+		m.capsSeen++
+		m.ParseableNodes++
+		return Res{K: Match, Pos: ne + 1, NVals: 1, First: ne, Last: ne,
+			Ev: []Event{{Field: e.Field, Vals: []string{m.Raw[ne].Value}, Start: pos, End: ne + 1, First: ne, Last: ne}}}
 	case KNeg:
 		ne := m.nextNE(pos)
 		if m.Raw[ne].EOF {
